@@ -40,9 +40,12 @@ func init() {
 	conc(&thorough, 2, 0, 2, 0, 0)
 	conc(&thorough, 2, 1, 2, 1, 0)
 	conc(&thorough, 4, 0, 1, 0, 1)
+	for _, k := range []int64{0, 1} {
+		quick = append(quick, &Job{Pkg: "", Func: "ZZ_C20_PanicRouting", Args: []int64{k}, Bounds: "exception handler in front of the idle handler, panicking event handler behind it; up to 2 expirations", ConcreteClock: true, MaxTimerFires: 2})
+	}
 	Specs["C20"] = &Spec{
 		Jobs: jobsBy(quick, thorough), Labels: labelFilter("c20-"),
-		MustReach: []string{"c20-idle-event", "c20-active-done", "c20-inactive-done", "c20-panic-routed", "c20-refused-write", "c20-close-then-panic"},
+		MustReach: []string{"c20-idle-event", "c20-active-done", "c20-inactive-done", "c20-panic-routed", "c20-refused-write", "c20-close-then-panic", "c20-panic-routed-from-head"},
 		Bounds: map[string]string{
 			"quick":    "timing: 4 event programs of up to 3 steps per handler kind on the fully symbolic clock; concurrency: one traffic event, up to 3 timer expirations, inactive event and panicking event handler variants, all interleavings",
 			"thorough": "timing: 5 more programs of up to 4 steps; concurrency: two traffic events, 4 expirations",
